@@ -1,5 +1,5 @@
 (** C03 — Unacknowledged QoS 1/2 deliveries are retransmitted until completed. *)
-From Wasp Require Import Model.Base Spec.MatchSpec Model.DState Model.IdPool Model.Mount Model.Node Proofs.BaseFacts Proofs.MountFacts Proofs.NodeFacts Proofs.IdsFacts Proofs.RetransmitFacts.
+From Wasp Require Import Model.Base Spec.MatchSpec Model.DState Model.IdPool Model.Mount Model.Node Proofs.BaseFacts Proofs.MountFacts Proofs.NodeFacts Proofs.IdsFacts Proofs.RetransmitFacts Proofs.AckFacts.
 From stdpp Require Import list strings.
 Open Scope Z_scope.
 
@@ -68,6 +68,24 @@ Theorem ended_session_frees_identifier : ∀ cl k i e, reachable k cl → (i < l
   a_mid e ∉ out_mids (n_acks n') ∧ IdPoolFacts.infree (ivs (n_pool n')) (a_mid e).
 Proof. exact sweep_frees_dead. Qed.
 Print Assumptions ended_session_frees_identifier.
+
+(** ... until the expected acknowledgement arrives: in every cluster state satisfying the
+    identifier invariant (every reachable one: [reachable_ok]), a PUBACK for a pending QoS 1
+    delivery, or a PUBCOMP for a pending PUBREL, sends nothing, takes the entry out of the
+    in-flight table, and leaves its identifier free in the pool and held by nothing — "after
+    completion nothing further is sent for it and its identifier becomes reusable" (a later sweep
+    finds no entry to re-send: [retransmitted_every_sweep] has nothing to apply to). *)
+Theorem acknowledgement_completes : ∀ cl c ty mid clk k s e,
+  cl_ok cl → (c_node k < length (cl_nodes cl))%nat →
+  find_conn cl c = Some k → c_closed k = false → c_sid k = Some (ss_id s) →
+  alookup (ss_id s) (n_reg (getn cl (c_node k))) = Some s →
+  ty ≠ PUBREL → ack_find (n_acks (getn cl (c_node k))) (ss_id s) mid = Some e → a_expect e = ty → completing e ty →
+  let r := do_ack cl c ty mid clk in
+  let n' := getn r.1 (c_node k) in
+  r.2 = dl s ∧
+  ack_find (n_acks n') (ss_id s) mid = None ∧ mid ∉ out_mids (n_acks n') ∧ IdPoolFacts.infree (ivs (n_pool n')) mid ∧ node_ok n'.
+Proof. exact ack_completes. Qed.
+Print Assumptions acknowledgement_completes.
 
 (** An acknowledgement of the wrong type, or for an identifier that is not in flight, changes nothing. *)
 Theorem wrong_ack_harmless : ∀ cl c ty mid clk k i n s,
